@@ -52,14 +52,18 @@ def check_rv(chk, words, exp_pos, exp_vel, tagname):
             want_p64 = exp_pos.astype(np.float64) * (box / 1e6)
             tol = (2.0 ** -22 if dt == np.float32 else 2.0 ** -50) * np.maximum(np.abs(want_p64), box / 1e6)
             results = {}
-            for pm, vm in itertools.product(('alloc', 'supplied', 'skip'), repeat=2):
-                posout = {'alloc': None, 'supplied': np.full((n, 3), np.nan, dtype=dt), 'skip': False}[pm]
-                velout = {'alloc': None, 'supplied': np.full((n, 3), np.nan, dtype=dt), 'skip': False}[vm]
+            for pm, vm in itertools.product(('alloc', 'supplied', 'strided', 'skip'), repeat=2):
+                if 'strided' in (pm, vm) and n > 20000:
+                    continue
+                # 'strided': the supplied output is a non-contiguous view (the halves of an (n, 7) buffer), as the columns of a structured particle table are
+                sbuf = np.full((n, 7), np.nan, dtype=dt)
+                posout = {'alloc': None, 'supplied': np.full((n, 3), np.nan, dtype=dt), 'strided': sbuf[:, 0:3], 'skip': False}[pm]
+                velout = {'alloc': None, 'supplied': np.full((n, 3), np.nan, dtype=dt), 'strided': sbuf[:, 4:7], 'skip': False}[vm]
                 r = unpack_rvint(words.copy(), box, float_dtype=dt, posout=posout, velout=velout)
                 nrun += 1
-                p = r[0] if pm == 'alloc' else (posout if pm == 'supplied' else None)
-                v = r[1] if vm == 'alloc' else (velout if vm == 'supplied' else None)
-                if pm == 'supplied' and r[0] != n or vm == 'supplied' and r[1] != n:
+                p = r[0] if pm == 'alloc' else (posout if pm in ('supplied', 'strided') else None)
+                v = r[1] if vm == 'alloc' else (velout if vm in ('supplied', 'strided') else None)
+                if pm in ('supplied', 'strided') and r[0] != n or vm in ('supplied', 'strided') and r[1] != n:
                     chk.violation(f'rvint-{tagname}-count', f'unpack_rvint returned count {r} for {n} supplied rows', dict(box=box))
                 if p is not None:
                     if p.dtype != dt or p.shape != (n, 3):
